@@ -7,6 +7,8 @@ pub mod c09;
 pub mod c10;
 pub mod c11;
 pub mod c12;
+pub mod c13;
+pub mod c14;
 pub mod c15;
 pub mod c16;
 pub mod c18;
@@ -24,6 +26,8 @@ pub fn by_id(id: &str) -> Option<Box<dyn Property>> {
         "C10" => Box::new(c10::C10),
         "C11" => Box::new(c11::C11),
         "C12" => Box::new(c12::C12),
+        "C13" => Box::new(c13::C13),
+        "C14" => Box::new(c14::C14),
         "C15" => Box::new(c15::C15),
         "C16" => Box::new(c16::C16),
         "C18" => Box::new(c18::C18),
